@@ -34,18 +34,15 @@ ok = rc_clean == 0 and rc_mut != 0 and "failed" not in tests_line[0] and "error"
 print("confirm: demo_clean=%d demo_mut=%d tests=%s ok=%s" % (rc_clean, rc_mut, tests_line[0].strip(), ok))
 if not ok:
     sys.exit(1)
-# run the check in /repo (exclusive: nobody else may run a check while /repo is patched)
-import fcntl
-_lock = open("/tmp/mut/repo.lock", "w")
-fcntl.flock(_lock, fcntl.LOCK_EX)
-assert sh("git diff --quiet", "/repo")[0] == 0, "/repo dirty"
-sh("git apply %s/patch.diff" % mdir, "/repo")
+# run the check against the scratch worktree with the patch applied (VERIF_REPO: /repo, evidence/ and replays/ stay untouched)
+sh("git apply %s/patch.diff" % mdir, wt)
 t1 = time.time()
+outdir = wt.rstrip("/") + ".checkout"
 try:
-    rc_chk, cout = sh("timeout 3400 ./check %s --tier %s" % (pid, tier), "/verif", timeout=3500)
+    rc_chk, cout = sh("timeout 3400 env VERIF_REPO=%s VERIF_SCRATCH_OUT=%s ./check %s --tier %s" % (wt, outdir, pid, tier), "/verif", timeout=3500)
 finally:
-    sh("git checkout -- .", "/repo")
-    fcntl.flock(_lock, fcntl.LOCK_UN)
+    sh("git checkout -- .", wt)
+    shutil.rmtree(outdir, ignore_errors=True)
 viol = [l for l in cout.splitlines() if l.startswith("VIOLATION")]
 first = ""
 lines = cout.splitlines()
